@@ -11,6 +11,13 @@ Tie:    every derivative closure kind (compile_gradient / compile_jacobian / com
         point two/three times with new arrays and with the very same array object, singular→regular→singular,
         regular→singular, the input array mutated in place between calls, +0.0 / −0.0 points that compare equal);
         the model's closures are stateless, so every answer must be what a fresh callable returns for that point.
+        Declared bounds / domains (solver metadata, not part of the modelled syntax): every closure kind compiled for variables
+        that declare a box (lb > 0, ub < 0, lb = 0, lb = ub, tight / crossed / infinite boxes, int- and NumPy-typed bounds,
+        integer / binary domains, per-element mixes, container and element attributes disagreeing) evaluated at singular
+        points inside, on and OUTSIDE the box (compile_gradient, compile_jacobian 1 and 2 rows, compile_hessian, the
+        callables of Problem._solver_cache) and after the histories compile → edit the bounds on the same objects →
+        evaluate the cached callable (incl. a real solve() in between): finite, = hand-written NumPy derivative sanitised,
+        = a fresh model of the same shape that declares nothing, = the general path on the same declared variables.
 Oracle: on the real output only: np.isfinite everywhere; an entry whose unsanitised value (gradient(e, v).evaluate
         at the point) is finite is returned unchanged, NaN → 0, ±Inf → ±1e16; the vectorised path equals the
         general path (the same node wrapped as `e + 0`).
@@ -375,13 +382,533 @@ def check_real(kind, e, V, xs):
     return fails
 
 
+# ----------------------------------------------------------------------------- declared bounds / domains × singular points outside the box
+# (checklist 21 / 10 / 12 / 14).  The bounds and the domain a variable declares are solver metadata: the solver re-reads them on
+# every solve, several SciPy methods ignore or overstep them, and they can be edited after a callable was compiled.  The property
+# quantifies over EVERY finite x, so a derivative callable compiled for variables with lb > 0 (ub < 0, a tight box, lb = ub, an
+# integer / binary domain, …) answers at 0, at negative entries, at ±1, at the origin exactly what a fresh model without any
+# declaration answers.  Family = every closure kind × every way of declaring a box × singular points inside, on and outside it.
+
+INF = float("inf")
+CONT, INTG, BINR = "continuous", "integer", "binary"
+DECL_KINDS = ("grad", "jac", "hess", "jac2")
+
+
+def _enc(v):
+    """bound value → JSON token (replay payloads keep the numeric TYPE of the declared bound)"""
+    if v is None or type(v) is float:
+        return v
+    if type(v) is int:
+        return {"int": v}
+    if isinstance(v, np.generic):
+        return {"np": type(v).__name__, "v": float(v)}
+    raise TypeError(type(v))
+
+
+def _dec(t):
+    if isinstance(t, dict):
+        return int(t["int"]) if "int" in t else getattr(np, t["np"])(t["v"])
+    return t
+
+
+def spec_json(spec):
+    return {"name": spec["name"], "how": spec["how"], "b": [[_enc(lb), _enc(ub), dom] for lb, ub, dom in spec["b"]]}
+
+
+def spec_from_json(d):
+    return {"name": d["name"], "how": d["how"], "b": [[_dec(lb), _dec(ub), dom] for lb, ub, dom in d["b"]]}
+
+
+def _u(name, lb=None, ub=None, dom=CONT, how="ctor"):
+    return {"name": name, "how": how, "b": [[lb, ub, dom]]}
+
+
+NO_DECLARATION = _u("none")
+
+
+def bound_specs(rng):
+    """ways of declaring a box / a domain, grouped in contiguous CLASSES of ≥ 3 members by where the box lies relative to the
+    singular sets {0}, {±1}, origin (the quick tier takes every third spec per shape, so every class meets every shape).
+    how: ctor = constructor keywords (container and elements agree) | elem = attributes of the element variables assigned after
+    construction, cycling through `b` (container attributes stay None) | container = only the container's attributes |
+    ctor+elem = constructor keywords b[0], then the elements cycling through `b` (container and elements disagree)"""
+    pos = [  # box strictly to the right of 0: excludes the pole of log / sqrt / 1/x / negative and fractional powers, the kink of
+             # abs, the origin of the norms
+        _u("lb=0.25", 0.25), _u("lb=0.5,ub=4", 0.5, 4.0), _u("lb=1e-9", 1e-9), _u("lb=1e-300", 1e-300), _u("lb=int(1)", 1),
+        _u("lb=np.float64(0.5)", np.float64(0.5)), _u("lb=np.int32(2)", np.int32(2), np.int32(7)), _u("lb=1e8", 1e8),
+        _u("lb=0.5,ub=inf", 0.5, INF), _u("[0.25,0.75]", 0.25, 0.75), _u("[1.5,3]", 1.5, 3.0), _u("[1+1e-9,2]", 1.0 + 1e-9, 2.0),
+        _u("lb=ub=0.5", 0.5, 0.5), _u("lb=ub=2", 2.0, 2.0), _u("lb=ub=1", 1.0, 1.0), _u("integer[1,5]", 1, 5, INTG),
+        _u("integer[0.5,2.5]", 0.5, 2.5, INTG), _u("elem:lb=0.5", 0.5, how="elem"),
+        {"name": "elem:all>0,each-different", "how": "elem", "b": [[0.5, None, CONT], [0.25, 4.0, CONT], [1.0, 1.0, CONT], [2, None, INTG]]},
+        {"name": "ctor lb=0.5 + elem:all>0", "how": "ctor+elem", "b": [[0.5, None, CONT], [3.0, 9.0, CONT]]},
+    ]
+    neg = [  # box strictly to the left of 0
+        _u("ub=-0.5", None, -0.5), _u("[-3,-0.5]", -3.0, -0.5), _u("[-0.75,-0.25]", -0.75, -0.25), _u("lb=ub=-1", -1.0, -1.0),
+        _u("ub=-1e-9", None, -1e-9), _u("[-inf,-0.5]", -INF, -0.5), _u("integer[-3,-1]", -3, -1, INTG), _u("elem:ub=-0.5", None, -0.5, how="elem"),
+        _u("ub=int(-2)", None, -2),
+    ]
+    edge = [  # 0 on the boundary of the box
+        _u("lb=0", 0.0), _u("lb=-0.0", -0.0), _u("lb=int(0)", 0), _u("[0,1]", 0.0, 1.0), _u("binary", 0.0, 1.0, BINR), _u("ub=0", None, 0.0),
+        _u("lb=ub=0", 0.0, 0.0), _u("integer lb=0", 0, None, INTG), _u("elem:binary", 0.0, 1.0, BINR, how="elem"),
+    ]
+    inner = [  # 0 inside / nothing declared / only ±1 excluded / empty box
+        _u("none"), _u("[-inf,inf]", -INF, INF), _u("lb=-1", -1.0), _u("[-2,2]", -2.0, 2.0), _u("[-0.5,0.5]", -0.5, 0.5), _u("integer", None, None, INTG),
+        _u("integer[-0.5,0.5]", -0.5, 0.5, INTG), _u("crossed[3,1]", 3.0, 1.0), _u("crossed[0.5,-0.5]", 0.5, -0.5),
+    ]
+    pool = [s["b"][0] for s in pos[:17] + neg[:7] + edge[:8] + inner]
+    mixed = [  # the elements of one vector declare different boxes (some exclude the singular set, some do not)
+        {"name": "elem:[>0,none]", "how": "elem", "b": [[0.5, None, CONT], [None, None, CONT]]},
+        {"name": "elem:[none,>0]", "how": "elem", "b": [[None, None, CONT], [0.5, None, CONT]]},
+        {"name": "elem:[>0,>0,none]", "how": "elem", "b": [[0.5, None, CONT], [0.25, 4.0, CONT], [None, None, CONT]]},
+        {"name": "elem:[>0,lb=0]", "how": "elem", "b": [[0.5, None, CONT], [0.0, None, CONT]]},
+        {"name": "elem:[>0,<0]", "how": "elem", "b": [[0.5, None, CONT], [None, -0.5, CONT]]},
+        {"name": "elem:[<0,none,<0]", "how": "elem", "b": [[None, -0.5, CONT], [None, None, CONT], [-3.0, -1.0, CONT]]},
+    ]
+    for k in range(3):
+        mixed.append({"name": f"elem:random#{k}", "how": "elem", "b": [list(rng.choice(pool)) for _ in range(rng.randint(2, 4))]})
+    split = [  # container attributes and element attributes disagree
+        {"name": "container-only:lb=0.5", "how": "container", "b": [[0.5, None, CONT]]},
+        {"name": "container-only:ub=-0.5", "how": "container", "b": [[None, -0.5, CONT]]},
+        {"name": "container-only:[0.25,0.75]", "how": "container", "b": [[0.25, 0.75, CONT]]},
+        {"name": "ctor lb=0.5, elements [0.5,none,none]", "how": "ctor+elem", "b": [[0.5, None, CONT], [None, None, CONT], [None, None, CONT]]},
+        {"name": "ctor lb=0.5, elements [0.5,lb=0]", "how": "ctor+elem", "b": [[0.5, None, CONT], [0.0, None, CONT]]},
+        {"name": "ctor none, elements [none,>0,>0]", "how": "ctor+elem", "b": [[None, None, CONT], [0.5, None, CONT], [0.25, 4.0, CONT]]},
+    ]
+    return pos + neg + edge + inner + mixed + split
+
+
+class Declared:
+    """fresh modelling objects whose variables carry the box / domain of `spec` (names are the same for every spec:
+    models that differ only in their declarations live side by side in one process)"""
+
+    def __init__(self, spec):
+        self.spec = spec
+        self.objs = []
+
+    def _kw(self):
+        if self.spec["how"] in ("ctor", "ctor+elem"):
+            lb, ub, dom = self.spec["b"][0]
+            return {"lb": lb, "ub": ub, "domain": dom}
+        return {}
+
+    @staticmethod
+    def _assign(spec, container, elems, editing):
+        how, b = spec["how"], spec["b"]
+        if how in ("elem", "ctor+elem") or (how == "ctor" and editing):
+            for i, v in enumerate(elems):
+                v.lb, v.ub, v.domain = b[i % len(b)]
+        if container is not None and (how == "container" or (editing and how in ("ctor", "ctor+elem"))):
+            container.lb, container.ub, container.domain = b[0]
+
+    def _reg(self, container, elems):
+        self.objs.append((container, elems))
+        self._assign(self.spec, container, elems, False)
+
+    def var(self, name):
+        from optyx import Variable
+
+        v = Variable(name, **self._kw())
+        self._reg(None, [v])
+        return v
+
+    def vec(self, name, n):
+        from optyx import VectorVariable
+
+        x = VectorVariable(name, n, **self._kw())
+        self._reg(x, list(x))
+        return x
+
+    def mat(self, name, r, c, symmetric=False):
+        from optyx import MatrixVariable
+
+        m = MatrixVariable(name, r, c, symmetric=symmetric, **self._kw())
+        self._reg(m, list(m.get_variables()))
+        return m
+
+    def edit(self, spec2):
+        """history: declare another box on the SAME objects (plain attribute assignment, as a user relaxing / tightening
+        bounds between solves does)"""
+        for container, elems in self.objs:
+            self._assign(spec2, container, elems, True)
+
+
+def bound_shapes():
+    """(name, build): build(mk) → (expr, V, raw) on fresh objects made by `mk`; raw(x) is the hand-written NumPy formula of the
+    UNSANITISED gradient in V order (None where none is given)"""
+    from optyx.core import vectors as Vc
+    from optyx.core import matrices as Mx
+    from optyx.core.functions import sin, log, sqrt, tan, asin, acos, acosh, atanh, abs_ as fabs, exp
+
+    out = []
+    LAY = {"full": lambda x, a: list(x), "sparse": lambda x, a: [a] + list(x), "perm": lambda x, a: [x[2], x[0], x[1]],
+           "span": lambda x, a: [x[0], a, x[2], x[1]]}
+
+    def scatter(V, elems, dfn):
+        if dfn is None:
+            return None
+        pos = [next(i for i, u in enumerate(V) if u is v) for v in elems]
+
+        def raw(xa):
+            r = np.zeros(len(V))
+            r[pos] = dfn(xa[pos])
+            return r
+        return raw
+
+    def vec(tag, node_of, dfn, lays):
+        for lay in lays:
+            if lay == "view":
+                def build(mk):
+                    w = mk.vec("w", 5)
+                    v = w[1:4]
+                    return node_of(v), list(w), scatter(list(w), list(v), dfn)
+            elif lay == "rev":
+                def build(mk):
+                    x = mk.vec("x", 3)
+                    v = x[::-1]
+                    return node_of(v), list(x), scatter(list(x), list(v), dfn)
+            else:
+                def build(mk, lay=lay):
+                    x, a = mk.vec("x", 3), mk.var("a")
+                    V = LAY[lay](x, a)
+                    return node_of(x), V, scatter(V, list(x), dfn)
+            out.append((f"{tag}|{lay}", build))
+
+    DU = {"log": lambda v: 1.0 / v, "sqrt": lambda v: 0.5 / np.sqrt(v), "abs": np.sign, "tan": lambda v: 1.0 / np.cos(v) ** 2,
+          "sin": np.cos, "cos": lambda v: -np.sin(v), "exp": np.exp, "sinh": np.cosh, "cosh": np.sinh, "tanh": lambda v: 1.0 / np.cosh(v) ** 2}
+    for op in gen.VOPS:
+        lays = ("full", "sparse", "perm", "span", "view", "rev") if op in ("log", "sqrt", "abs") else (("full", "sparse") if op == "tan" else ("full",))
+        vec(f"us{op}", lambda v, op=op: Vc.VectorUnarySum(v, op), DU[op], lays)
+    for k in (0.5, -1, -2, 1.5, -0.5, 2.5, 3, 0, 1, 2):
+        lays = ("full", "sparse", "span", "view") if k in (0.5, -1) else (("full", "sparse") if k in (-2, 1.5, -0.5, 2.5) else ("full",))
+        vec(f"ps{k}", lambda v, k=k: Vc.VectorPowerSum(v, k), (lambda v, k=k: k * np.power(v, k - 1.0)) if k not in (0, 1) else None, lays)
+    # the same sums written through the public API
+    vec("api:log(x).sum()", lambda v: log(v).sum(), DU["log"], ("full", "sparse"))
+    vec("api:sqrt(x).sum()", lambda v: sqrt(v).sum(), DU["sqrt"], ("full", "sparse"))
+    vec("api:abs(x).sum()", lambda v: fabs(v).sum(), DU["abs"], ("full",))
+    vec("api:(x**-1).sum()", lambda v: (v ** -1).sum(), lambda v: -1.0 / v ** 2, ("full", "sparse"))
+    vec("api:(x**0.5).sum()", lambda v: (v ** 0.5).sum(), DU["sqrt"], ("full",))
+    # norms (singular at the origin / on the coordinate planes)
+    vec("l2", lambda v: Vc.L2Norm(v), lambda v: v / np.sqrt(np.sum(v * v)), ("full", "sparse", "view"))
+    vec("l1", lambda v: Vc.L1Norm(v), np.sign, ("full", "sparse"))
+
+    def l2ve(mk):
+        x, y = mk.vec("x", 3), mk.vec("y", 3)
+        return Vc.L2Norm(x - y), list(x) + list(y), None
+    out.append(("l2(x-y)", l2ve))
+    for sym in (True, False):
+        def fro(mk, sym=sym):
+            S = mk.mat("S", 2, 2, symmetric=sym)
+            return Mx.FrobeniusNorm(S), list(S.get_variables()), None
+        out.append((f"fro:{'S' if sym else 'M'}", fro))
+    # wrappers around the vector nodes at the root (the compilers dispatch on the root: another closure, another sanitiser)
+    WR = [("-uslog", lambda x, a: -Vc.VectorUnarySum(x, "log")), ("2*ussqrt", lambda x, a: 2.0 * Vc.VectorUnarySum(x, "sqrt")),
+          ("uslog-1", lambda x, a: Vc.VectorUnarySum(x, "log") - 1.0), ("ps0.5+1", lambda x, a: Vc.VectorPowerSum(x, 0.5) + 1.0),
+          ("usabs*2", lambda x, a: Vc.VectorUnarySum(x, "abs") * 2.0), ("ps-1+a", lambda x, a: Vc.VectorPowerSum(x, -1) + a),
+          ("uslog+ussqrt", lambda x, a: Vc.VectorUnarySum(x, "log") + Vc.VectorUnarySum(x, "sqrt")),
+          ("l2/l1", lambda x, a: Vc.L2Norm(x) / Vc.L1Norm(x)), ("log(sum)", lambda x, a: log(x.sum())), ("1/sum", lambda x, a: 1.0 / x.sum()),
+          ("sqrt(dotxx)", lambda x, a: sqrt(Vc.DotProduct(x, x))), ("lc+log(x0)", lambda x, a: Vc.LinearCombination(np.array([1.0, -2.0, 0.5]), x) + log(x[0])),
+          ("a*uslog", lambda x, a: a * Vc.VectorUnarySum(x, "log"))]
+    for tag, f in WR:
+        def build(mk, f=f):
+            x, a = mk.vec("x", 3), mk.var("a")
+            e = f(x, a)
+            return e, ([a] + list(x) if any(u is a for u in gen.expr_vars(e)) else list(x)), None
+        out.append((f"wrap:{tag}", build))
+    # general (element-by-element) path over scalar variables
+    GEN = [("log(a)+b*b", lambda a, b: log(a) + b * b, lambda v: np.array([1.0 / v[0], 2.0 * v[1]])),
+           ("sqrt(a)+sin(b)", lambda a, b: sqrt(a) + sin(b), lambda v: np.array([0.5 / np.sqrt(v[0]), np.cos(v[1])])),
+           ("1/a+exp(b)", lambda a, b: 1.0 / a + exp(b), lambda v: np.array([-1.0 / v[0] ** 2, np.exp(v[1])])),
+           ("abs(a)+abs(b)", lambda a, b: fabs(a) + fabs(b), lambda v: np.sign(v)),
+           ("sqrt(a)*b", lambda a, b: sqrt(a) * b, None), ("a**-1*b", lambda a, b: a ** -1.0 * b, None), ("a**0.5+b", lambda a, b: a ** 0.5 + b, None),
+           ("a**1.5", lambda a, b: a ** 1.5 + 0.0 * b, None), ("b/a", lambda a, b: b / a, None), ("a**b", lambda a, b: a ** b, None),
+           ("log(a)*log(b)", lambda a, b: log(a) * log(b), None), ("asin(a)+b", lambda a, b: asin(a) + b, None),
+           ("acos(a)*b", lambda a, b: acos(a) * b, None), ("acosh(a)+b", lambda a, b: acosh(a) + b, None), ("atanh(a)+b", lambda a, b: atanh(a) + b, None),
+           ("tan(a)+b", lambda a, b: tan(a) + b, None), ("sqrt(a*a+b*b)", lambda a, b: sqrt(a * a + b * b), None)]
+    for tag, f, dfn in GEN:
+        def build(mk, f=f, dfn=dfn):
+            a, b = mk.var("a"), mk.var("b")
+            return f(a, b), [a, b], dfn
+        out.append((f"gen:{tag}", build))
+    return out
+
+
+def compile_declared(kind, e, V):
+    if kind == "jac2":
+        import optyx.core.autodiff as AD
+
+        return AD.compile_jacobian([e, e], V)
+    return compile_kind(kind, e, V)
+
+
+def bound_points(rng, n, specs=(), thorough=True):
+    """singular points irrespective of any declared box (origin, a 0 / −2 / +1 / −1 at every position, a near-singular
+    neighbour), the declared bound values themselves as coordinates, regular points.  Bound values above 100 are not used as
+    coordinates (cosh(1e8) overflows: outside the statement, see ASSUMPTIONS)"""
+    pts = [[0.0] * n, [-0.0] * n, [-1.0] * n, [1.0] * n]
+    for p in range(n):
+        for s in ((0.0, -2.0, 1.0, -1.0) if thorough else (0.0, -2.0, 1.0)):
+            x = [BASE[(i + p) % len(BASE)] for i in range(n)]
+            x[p] = s
+            pts.append(x)
+        if thorough or p == n - 1:
+            x = [BASE[(i + p + 2) % len(BASE)] for i in range(n)]
+            x[p] = 0.0
+            x[(p + 1) % n] = NEAR[p % 2]
+            pts.append(x)
+    vals = []
+    for spec in specs:
+        for lb, ub, _ in spec["b"]:
+            for v in (lb, ub):
+                if v is not None and math.isfinite(float(v)) and abs(float(v)) <= 100.0 and float(v) not in vals:
+                    vals.append(float(v))
+    for v in vals[:(4 if thorough else 2)]:
+        pts.append([v] * n)                                             # every coordinate ON the bound
+        x = [0.0] * n
+        x[rng.randrange(n)] = v
+        pts.append(x)                                                   # one coordinate on the bound, the others at 0
+    pts.append([BASE[(i + 3) % len(BASE)] for i in range(n)])
+    pts.append([rng.choice(SPECIALS + BASE) for _ in range(n)])
+    return pts
+
+
+def _declared_fail(what, shape, spec, kind, channel, xs, **more):
+    d = {"what": what, "kind": "declared-bounds", "shape": shape, "spec": spec_json(spec), "deriv": kind, "channel": channel,
+         "x": [float(a) for a in xs]}
+    d.update(more)
+    return d
+
+
+def _compare_declared(got, ref, gen_out, raw, xs, mk_fail, names,
+                      other_what="specialised path and general path (e + 0) disagree on the same bounded variables"):
+    """the oracle at one point; got / ref / gen_out are flat lists or 'raise:…'"""
+    fn_name, ref_name = names
+    if isinstance(got, str):
+        return mk_fail(f"derivative callable compiled for variables with declared bounds raised {got[6:]} at a finite point", path=fn_name)
+    if not all(math.isfinite(v) for v in got):
+        return mk_fail("derivative callable compiled for variables with declared bounds returned a non-finite entry at a finite point",
+                       path=fn_name, got=got)
+    if raw is not None and not any(a == 0.0 and math.copysign(1.0, a) < 0 for a in xs):
+        want = [expected_from_raw(float(r)) for r in J.quiet(lambda: raw(np.array(xs, dtype=float)))]
+        rows = len(got) // len(want) if want and len(got) % len(want) == 0 else 0
+        want = want * rows
+        tol = cancel_tol(got, want)
+        if len(want) != len(got) or not all(same_class(a, b, tol) for a, b in zip(got, want)):
+            return mk_fail("entry is not the sanitised value of the hand-written NumPy derivative (finite → unchanged, NaN → 0, ±Inf → ±1e16)",
+                           path=fn_name, got=got, want=want)
+    if not isinstance(ref, str):
+        tol = cancel_tol(got, ref)
+        if len(ref) != len(got) or not all(same_class(a, b, tol) for a, b in zip(got, ref)):
+            return mk_fail("the answer depends on the declared bounds / domain: it differs from a fresh model of the same expression "
+                           "whose variables declare nothing", path=fn_name, fresh_path=ref_name, got=got, want=ref)
+    if gen_out is not None and not isinstance(gen_out, str):
+        if not all(math.isfinite(v) for v in gen_out) and other_what.startswith("specialised"):
+            return mk_fail("the general path (e + 0) compiled for the same declared variables returned a non-finite entry at a finite point",
+                           path=fn_name, got=gen_out)
+        tol = cancel_tol(got, gen_out)
+        if len(gen_out) != len(got) or not all(same_class(a, b, tol) for a, b in zip(got, gen_out)):
+            return mk_fail(other_what, path=fn_name, got=got, other=gen_out)
+    return None
+
+
+def _call(fn, xs):
+    return J.grab(lambda: flat(fn(np.array(xs, dtype=float))))
+
+
+def check_declared(shape, build, spec, kind, pts, bounded_first=True, nontrivial=None):
+    """one (expression shape, declaration, closure kind): the callable compiled for the declared variables at every point
+    (inside, on, outside the box) is finite, equals the hand-written sanitised derivative, equals a fresh undeclared model of
+    the same shape (same names, built before or after), equals the general path on the same declared variables"""
+    if bounded_first:
+        eB, VB, raw = build(Declared(spec))
+        eU, VU, _ = build(Declared(NO_DECLARATION))
+    else:
+        eU, VU, _ = build(Declared(NO_DECLARATION))
+        eB, VB, raw = build(Declared(spec))
+    fnB = J.grab(lambda: compile_declared(kind, eB, VB))
+    fnU = J.grab(lambda: compile_declared(kind, eU, VU))
+    if isinstance(fnB, str) or isinstance(fnU, str):
+        if str(fnB) != str(fnU) and isinstance(fnB, str):
+            return [_declared_fail(f"compile_{kind} raised {fnB[6:]} for declared variables only", shape, spec, kind, "compile", pts[0])], 0
+        return [], 0
+    gB = J.grab(lambda: compile_declared(kind, eB + 0.0, VB))
+    fails, n = [], 0
+    for xs in pts:
+        n += 1
+        got, ref = _call(fnB, xs), _call(fnU, xs)
+        gen_out = None if isinstance(gB, str) else _call(gB, xs)
+        if nontrivial is not None and not isinstance(got, str) and any(abs(v) == LARGE for v in got):
+            nontrivial.add(("declared", shape, spec["name"], kind, tuple(J.num_tok(a) for a in xs)))
+        f = _compare_declared(got, ref, gen_out, raw if kind in ("grad", "jac", "jac2") else None, xs,
+                              lambda what, **m: _declared_fail(what, shape, spec, kind, "compile", xs, bounded_first=bounded_first, **m),
+                              (fnB.__name__, fnU.__name__))
+        if f:
+            fails.append(f)
+            break
+    return fails, n
+
+
+def _problem_callables(e, sense, solve, constrained=None):
+    """the derivative callables a Problem hands to SciPy: objective gradient + constraint Jacobians, from
+    `_build_solver_cache` directly or from `problem._solver_cache` after a real solve()"""
+    from optyx import Problem
+    from optyx.solvers.scipy_solver import _build_solver_cache
+
+    prob = Problem()
+    prob = prob.minimize(e) if sense == "minimize" else prob.maximize(e)
+    if (not solve) if constrained is None else constrained:   # the real solve stays bound-constrained only (L-BFGS-B: milliseconds; trust-constr takes ~0.5 s per model)
+        prob = prob.subject_to(e <= 1000.0).subject_to(e >= 0)
+    V = J.grab(lambda: list(prob.variables))
+    if isinstance(V, str):
+        return None
+    if solve:
+        J.grab(lambda: prob.solve())
+        cache = prob._solver_cache
+    else:
+        cache = J.grab(lambda: _build_solver_cache(prob, V))
+    if cache is None or isinstance(cache, str):
+        return None
+    fns = [("objective grad_fn", cache["grad_fn"])]
+    for i, d in enumerate(cache["scipy_constraints"]):
+        fns.append((f"constraint[{i}] jac", d["jac"]))
+    return prob, V, fns
+
+
+def check_declared_history(shape, build, spec, spec2, kind, channel, pts, nontrivial=None):
+    """history: compile (compile_* / the solver cache / a real solve) while the variables declare `spec`, call once, declare
+    `spec2` on the same objects, then evaluate the CACHED callables at points that the new box may contain: finite, equal to a
+    fresh undeclared model, equal to the hand-written derivative, and equal to a callable compiled after the edit"""
+    mk = Declared(spec)
+    eB, VB, raw = build(mk)
+    eU, VU, _ = build(Declared(NO_DECLARATION))
+    reg = [BASE[(i + 3) % len(BASE)] for i in range(len(VB))]
+    if channel == "compile":
+        fnB, fnU = J.grab(lambda: compile_declared(kind, eB, VB)), J.grab(lambda: compile_declared(kind, eU, VU))
+        if isinstance(fnB, str) or isinstance(fnU, str):
+            return [], 0
+        pairs = [(kind, fnB, fnU, raw if kind != "hess" else None)]
+        order, perm = reg, None
+    else:
+        sense = "minimize" if kind != "hess" else "maximize"
+        pb = _problem_callables(eB, sense, channel == "solve")
+        pu = _problem_callables(eU, sense, False, constrained=channel != "solve")
+        if pb is None or pu is None or len(pb[2]) != len(pu[2]) or [v.name for v in pb[1]] != [v.name for v in pu[1]]:
+            return [], 0
+        pairs = [(nm, fb, fu, None) for (nm, fb), (_, fu) in zip(pb[2], pu[2])]
+        order = [BASE[(i + 3) % len(BASE)] for i in range(len(pb[1]))]
+        # points are generated in V order of the shape; the problem sorts its variables: permute by name
+        name_pos = {v.name: i for i, v in enumerate(VB)}
+        perm = [name_pos[v.name] for v in pb[1]] if {v.name for v in pb[1]} <= set(name_pos) else None   # sparse layouts: a subset
+        if perm is None:
+            return [], 0
+    for _, fb, _, _ in pairs:
+        _call(fb, order)                       # one request before the edit
+    mk.edit(spec2)
+    fails, n = [], 0
+    for nm, fb, fu, rw in pairs:
+        fresh = J.grab(lambda: compile_declared(kind, eB, VB)) if channel == "compile" else None
+        for xs in pts:
+            n += 1
+            xc = xs if perm is None else [xs[j] for j in perm]
+            got, ref = _call(fb, xc), _call(fu, xc)
+            again = None if fresh is None or isinstance(fresh, str) else _call(fresh, xc)
+            if nontrivial is not None and not isinstance(got, str) and any(abs(v) == LARGE for v in got):
+                nontrivial.add(("declared-history", shape, spec["name"], spec2["name"], nm, tuple(J.num_tok(a) for a in xs)))
+
+            def mk_fail(what, **m):
+                return _declared_fail(what + f"  [history: compiled under '{spec['name']}', then re-declared '{spec2['name']}', "
+                                             f"then the cached {nm} evaluated]", shape, spec, kind, channel, xs,
+                                      spec_after=spec_json(spec2), callable=nm, V_names=[v.name for v in VB],
+                                      called_with=[float(a) for a in xc], **m)
+            f = _compare_declared(got, ref, again, rw, xc, mk_fail, (getattr(fb, "__name__", nm), getattr(fu, "__name__", nm)),
+                                  "the cached callable differs from one compiled after the bounds were edited")
+            if f:
+                fails.append(f)
+                break
+        if fails:
+            break
+    return fails, n
+
+
+def history_pairs(specs):
+    """(declared at compile time → declared afterwards): loosen, remove, move across 0, tighten, change the domain"""
+    by = {s["name"]: s for s in specs}
+    before = ["lb=0.5,ub=4", "lb=0.25", "[0.25,0.75]", "[1.5,3]", "lb=ub=2", "integer[1,5]", "elem:all>0,each-different", "lb=np.float64(0.5)",
+              "ub=-0.5", "[-3,-0.5]", "integer[-3,-1]", "lb=0", "binary", "none", "[-0.5,0.5]", "elem:[>0,none]", "container-only:lb=0.5"]
+    after = ["lb=0", "none", "lb=-1", "[-2,2]", "ub=0", "lb=0.5,ub=4", "[-0.5,0.5]", "elem:[>0,lb=0]", "ub=-0.5"]
+    return [(by[a], by[b]) for a in before for b in after if a != b]
+
+
+def declared_failures(rng, full, nontrivial=None, stop_at_first=False):
+    """the whole family.  quick tier: every shape × every third declaration (each class of declarations is ≥ 6 contiguous
+    members) with the closure kind rotating along the chosen declarations (so every shape meets every class under at least two
+    kinds, the large classes under all), histories on a rotating choice; full: the product"""
+    shapes = bound_shapes()
+    specs = bound_specs(rng)
+    pairs = history_pairs(specs)
+    fails, n_evals, hist = [], 0, {"declared:cases": 0, "declared:history_cases": 0}
+    off = rng.randrange(3)
+    for si, (shape, build) in enumerate(shapes):
+        n = len(build(Declared(NO_DECLARATION))[1])
+        for pi, spec in enumerate(specs):
+            if not full and (si + pi + off) % 3 != 0:
+                continue
+            pts = bound_points(rng, n, (spec,), full and (si + pi) % 8 == 0)
+            kinds = DECL_KINDS
+            if not full:
+                kinds = (DECL_KINDS[(pi // 3 + si) % 3],) + (("jac2",) if (pi // 3 + si) % 4 == 0 else ())
+            for ki, kind in enumerate(kinds):
+                fs, k = check_declared(shape, build, spec, kind, pts, bounded_first=(si + pi // 3 + ki) % 2 == 0, nontrivial=nontrivial)
+                n_evals += k
+                hist["declared:cases"] += 1
+                fails += fs
+                if fails and stop_at_first:
+                    return fails, n_evals, hist
+        # histories
+        # + pairs[0] = "compile with lb = 0.5, set lb = 0, evaluate the cached callable at 0" for every shape, channel rotating
+        chosen = [pairs[(si * 7 + j * 11 + off) % len(pairs)] for j in range(12 if full else 3)] + [pairs[0]]
+        for hi, (sa, sb) in enumerate(chosen):
+            pts = bound_points(rng, n, (sb, sa), full and hi % 4 == 0)
+            kind = DECL_KINDS[(si + hi) % 3]
+            channels = ("compile", "cache") if full else (("compile", "cache")[(hi + si) % 2],)
+            if hi == len(chosen) - 1 and not full:
+                channels = (("compile", "cache", "solve")[(si + off) % 3],)
+            elif sa["b"][0][2] == CONT and (hi in (0, 7, 12) if full else (hi == 0 and (si + off) % 4 == 0)):
+                channels += ("solve",)
+            for channel in channels:
+                fs, k = check_declared_history(shape, build, sa, sb, kind, channel, pts, nontrivial=nontrivial)
+                n_evals += k
+                hist["declared:history_cases"] += 1
+                hist[f"declared:history:{channel}"] = hist.get(f"declared:history:{channel}", 0) + 1
+                fails += fs
+                if fails and stop_at_first:
+                    return fails, n_evals, hist
+    return fails, n_evals, hist
+
+
+def replay_declared(f) -> bool:
+    shapes = dict(bound_shapes())
+    build = shapes[f["shape"]]
+    spec = spec_from_json(f["spec"])
+    if "spec_after" in f:
+        fails, _ = check_declared_history(f["shape"], build, spec, spec_from_json(f["spec_after"]), f["deriv"], f["channel"], [f["x"]])
+    else:
+        fails, _ = check_declared(f["shape"], build, spec, f["deriv"], [f["x"]], bounded_first=bool(f.get("bounded_first", True)))
+    for g in fails:
+        print("FAIL:", {k: g[k] for k in g if k != "spec"}, "declared:", g["spec"])
+    return not fails
+
+
 def run(ctx) -> core.Report:
     rng = ctx["rng"]
     thorough = ctx["tier"] == "thorough" or ctx["escalate"]
     rep = core.Report(rule="every derivative closure kind (vectorised power k ∈ {1, 2, 3, .5, −1, 2.5, 0, −2, 1.5, −.5, 4} and "
                            "10 unary ops × full / sparse / permuted × gradient / Jacobian / Hessian; constant, scaled and general "
                            "closures over abs, sqrt, log, fractional and negative powers, quotients, inverse functions at ±1, "
-                           "norms) × singular values {0, −0.0, ±1, −2, ±.5, 2} at every position + origin.  "
+                           "norms) × singular values {0, −0.0, ±1, −2, ±.5, 2} at every position + origin; the same closure kinds "
+                           "compiled for variables that DECLARE a box / domain (lb > 0, ub < 0, 0 on the boundary, lb = ub, tight and "
+                           "crossed boxes, ±inf, int / NumPy-typed bounds, integer / binary, per-element mixes, container ≠ elements) "
+                           "at singular points inside, on and outside the box, and after bound edits (compile_*, solver cache, "
+                           "real solve).  "
                            "non-trivial = distinct (closure, point) where some unsanitised entry is NaN or ±Inf",
                       exhaustive=True)
     cases = closure_cases(rng, thorough)
@@ -538,6 +1065,12 @@ def run(ctx) -> core.Report:
                 f.update(J.payload_of([e], V, xs, params)); f["tag"] = tag + "|threshold=2"; f["deriv"] = kind; f["thresholds_forced"] = 2
                 rep.oracle_failures.append(f)
     rep.evaluations += n_seq_calls
+    # declared bounds / domains × singular points inside, on and outside the declared box, + bound-edit histories (oracle on the
+    # real code only: bounds are not part of the modelled syntax — the model's closures cannot depend on them)
+    dfails, d_evals, dhist = declared_failures(rng, thorough, nontrivial=rep.nontrivial)
+    rep.oracle_failures.extend(dfails)
+    rep.evaluations += d_evals
+    rep.histogram.update(dhist)
 
     for tag, g, point, idx in ev_metas:
         real = J.grab(lambda: float(np.asarray(g.evaluate(point))))
@@ -595,6 +1128,11 @@ def search(ctx, rep):
                     f.update(J.payload_of(es, V, pt, J.all_params(es)))
                     f["tag"] = mm.get("tag", "mismatch"); f["deriv"] = kind
                     return f
+    # (2) the declared-bounds family in full (run() used every third declaration per shape unless it was escalated)
+    if not (ctx.get("escalate") or ctx.get("tier") == "thorough"):
+        dfails, _, _ = declared_failures(rng, True, stop_at_first=True)
+        if dfails:
+            return dfails[0]
     for rnd in range(3):
         for tag, kind, e, V, own_pts in closure_cases(rng, True):
             if V:
@@ -632,6 +1170,8 @@ def replay(payload) -> bool:
         ok = [float(v) for v in res] == [expected_from_raw(v) for v in arr]
         print("sanitize:", list(res))
         return ok
+    if f.get("kind") == "declared-bounds":
+        return replay_declared(f)
     if "exprs" not in f and "array" not in f:
         print("no serialisable expression (outside the Lean syntax):", {k: f[k] for k in f if k not in ("got", "want")})
         return False
